@@ -26,6 +26,8 @@ pub struct Prog {
     pub query: String,
     /// number of body predicates over all rules (for the promptness allowance)
     pub body_preds: usize,
+    /// content of the authority block when the program lives in a token
+    pub authority_code: String,
 }
 
 fn chain(l: usize) -> String {
@@ -41,24 +43,34 @@ pub fn programs(tier: Tier) -> Vec<Prog> {
     let mut v = vec![];
     for l in tier.pick(vec![0usize, 1, 3], vec![0, 1, 2, 3, 5, 6]) {
         for in_token in [false, true] {
-            v.push(Prog { family: "chain", name: format!("chain({l}){}", if in_token { "/token" } else { "" }), code: chain(l), in_token, query: "q($x) <- reach($x)".into(), body_preds: 2 });
+            v.push(Prog { family: "chain", name: format!("chain({l}){}", if in_token { "/token" } else { "" }), code: chain(l), in_token, query: "q($x) <- reach($x)".into(), body_preds: 2, authority_code: "auth(0);".into() });
         }
     }
     let fan: String = (0..8).map(|i| format!("f({i}); ")).collect::<String>() + "g($x) <- f($x); ";
-    v.push(Prog { family: "fan", name: "fan(8)".into(), code: fan.clone(), in_token: false, query: "q($x) <- g($x)".into(), body_preds: 1 });
-    v.push(Prog { family: "fan", name: "fan(8)/token".into(), code: fan, in_token: true, query: "q($x) <- g($x)".into(), body_preds: 1 });
+    v.push(Prog { family: "fan", name: "fan(8)".into(), code: fan.clone(), in_token: false, query: "q($x) <- g($x)".into(), body_preds: 1, authority_code: "auth(0);".into() });
+    v.push(Prog { family: "fan", name: "fan(8)/token".into(), code: fan, in_token: true, query: "q($x) <- g($x)".into(), body_preds: 1, authority_code: "auth(0);".into() });
     for (n, k) in tier.pick(vec![(3usize, 2usize), (6, 4)], vec![(3, 2), (4, 3), (6, 3), (6, 4)]) {
         let facts: String = (0..n).map(|i| format!("f({i}); ")).collect();
         let vars: Vec<String> = (0..k).map(|i| format!("$x{i}")).collect();
         let body: Vec<String> = vars.iter().map(|x| format!("f({x})")).collect();
         let code = format!("{facts} j({}) <- {}; ", vars.join(","), body.join(", "));
-        v.push(Prog { family: "join", name: format!("join({n},{k})"), code, in_token: false, query: format!("q($x0) <- j({})", vars.join(",")), body_preds: k });
+        v.push(Prog { family: "join", name: format!("join({n},{k})"), code, in_token: false, query: format!("q($x0) <- j({})", vars.join(",")), body_preds: k, authority_code: "auth(0);".into() });
     }
     let preload: String = (0..10).map(|i| format!("p({i}); ")).collect();
-    v.push(Prog { family: "preload", name: "preload(10)".into(), code: preload.clone(), in_token: false, query: "q($x) <- p($x)".into(), body_preds: 0 });
-    v.push(Prog { family: "preload", name: "preload(10)/token".into(), code: preload, in_token: true, query: "q($x) <- p($x)".into(), body_preds: 0 });
+    v.push(Prog { family: "preload", name: "preload(10)".into(), code: preload.clone(), in_token: false, query: "q($x) <- p($x)".into(), body_preds: 0, authority_code: "auth(0);".into() });
+    v.push(Prog { family: "preload", name: "preload(10)/token".into(), code: preload, in_token: true, query: "q($x) <- p($x)".into(), body_preds: 0, authority_code: "auth(0);".into() });
     // two rule groups: one cheap chain and one fan (many cheap iterations + breadth)
-    v.push(Prog { family: "mixed", name: "chain(3)+fan(8)".into(), code: chain(3) + &(0..8).map(|i| format!("f({i}); ")).collect::<String>() + "g($x) <- f($x), reach($x); ", in_token: false, query: "q($x) <- g($x)".into(), body_preds: 4 });
+    v.push(Prog { family: "mixed", name: "chain(3)+fan(8)".into(), code: chain(3) + &(0..8).map(|i| format!("f({i}); ")).collect::<String>() + "g($x) <- f($x), reach($x); ", in_token: false, query: "q($x) <- g($x)".into(), body_preds: 4, authority_code: "auth(0);".into() });
+    // the fixpoint is cheap, the expensive evaluation is a check that passes / a policy that matches, in each of
+    // the four places authorize() evaluates queries (authorizer checks, authority checks, policies, block checks)
+    let facts: String = (0..6).map(|i| format!("f({i}); ")).collect();
+    let body = "f($a), f($b), f($c), $a + $b + $c >= 0";
+    let q: String = "q($x) <- f($x)".into();
+    v.push(Prog { family: "check-phase", name: "passing-check/authorizer".into(), code: format!("{facts} check all {body};"), in_token: false, query: q.clone(), body_preds: 3, authority_code: "auth(0);".into() });
+    v.push(Prog { family: "check-phase", name: "matching-policy/authorizer".into(), code: format!("{facts} allow if {body};"), in_token: false, query: q.clone(), body_preds: 3, authority_code: "auth(0);".into() });
+    v.push(Prog { family: "check-phase", name: "passing-check/block".into(), code: format!("{facts} check all {body};"), in_token: true, query: q.clone(), body_preds: 3, authority_code: "auth(0);".into() });
+    v.push(Prog { family: "check-phase", name: "passing-check/authority".into(), code: "b(1);".into(), in_token: true, query: q.clone(), body_preds: 3, authority_code: format!("{facts} check all {body};") });
+    v.push(Prog { family: "check-phase", name: "passing-check-if/authorizer".into(), code: format!("{facts} check if {body}, $a + $b + $c == 15;"), in_token: false, query: q, body_preds: 3, authority_code: "auth(0);".into() });
     v
 }
 
@@ -166,7 +178,7 @@ pub fn token_for(p: &Prog) -> Option<Biscuit> {
     }
     // authority carries nothing, block 1 carries the program (trusting previous so that it sees itself only)
     let t = b::BiscuitBuilder::new()
-        .code("auth(0);")
+        .code(&p.authority_code)
         .unwrap()
         .build_with_key_pair(&root(Alg::Ed), SymbolTable::new(), &key(Alg::Ed, ROLE_NEXT, 0))
         .unwrap();
